@@ -951,7 +951,17 @@ func (g *gen) mapScenario() {
 			n = 3
 		}
 		var items []string
+		zeroKeySeen := false
 		for i := 0; i < n; i++ {
+			// two spellings of the zero struct value (P{} and P{X: 0}) are equal keys that the
+			// compiler cannot see; which element then survives is not defined by the language
+			// (gc inserts statically initialised elements first): use one of them only
+			if lit := perm[i]; lit == k.typ+"{}" || lit == k.typ+"{X: 0}" || lit == k.typ+`{X: ""}` || lit == k.typ+"{X: false}" {
+				if zeroKeySeen {
+					continue
+				}
+				zeroKeySeen = true
+			}
 			if perm[i] == "nil" && Avoid.NilIfaceKey {
 				OnExcluded("F-C08-6")
 				continue
